@@ -249,3 +249,300 @@ Proof.
   split; [apply Qc_is_canon; vm_compute; reflexivity|].
   split; [apply Qc_is_canon; vm_compute; reflexivity|]. vm_compute. reflexivity.
 Qed.
+
+(* ================= DEEPENING (round 2): union = sparse grid, number of points, linearity / exactness on the SPAN,
+   point-weight list of the combination.  Proofs/StdUnion.v, Proofs/StdLinear.v ================= *)
+From SG Require Import Proofs.StdUnion Proofs.StdLinear.
+
+(* the union of the component grids EQUALS the sparse grid of the index set (both inclusions; C02_union_contains_sparse_grid above
+   is one of them), every reachable state of the adaptive scheme *)
+Theorem C02_union_equals_sparse_grid_adaptive : forall bd a b s x, Inv s -> 0 <= s_lmin s ->
+  (in_union bd a b (combi_scheme_adaptive s) x <-> in_sparse_grid bd a b (index_set s) x).
+Proof. exact adaptive_union_equals_sparse_grid. Qed.
+
+(* closed-form scheme of StandardCombi, every dimension, every 0 <= lmin <= lmax: x lies in some component grid iff it lies in a
+   grid of a level vector k >= lmin with |k|_1 <= lmax - lmin + d*lmin ... *)
+Theorem C02_union_equals_sparse_grid_closed_form : forall bd a b n lmin lmax x, 0 <= lmin <= lmax ->
+  (in_union bd a b (combi_scheme_standard (S n) lmin lmax) x <->
+   exists k, length k = S n /\ Forall (fun v => lmin <= v) k /\ sumZ k <= lmax - lmin + Z.of_nat (S n) * lmin /\
+             in_comp bd a b x k = true).
+Proof. exact std_union_equals_sparse_grid. Qed.
+
+(* ... iff it lies in a grid of the finest diagonal |k|_1 = lmax - lmin + d*lmin (the form of the property statement) *)
+Theorem C02_union_is_diagonal_union_closed_form : forall bd a b n lmin lmax x, 0 <= lmin <= lmax ->
+  (in_union bd a b (combi_scheme_standard (S n) lmin lmax) x <->
+   exists k, length k = S n /\ Forall (fun v => lmin <= v) k /\ sumZ k = lmax - lmin + Z.of_nat (S n) * lmin /\
+             in_comp bd a b x k = true).
+Proof. exact std_union_is_diagonal_union. Qed.
+
+(* a component grid has no duplicate points and exactly prod_d N(l_d) of them (get_num_points_component_grid) *)
+Theorem C02_component_points_count : forall bd a b l, box_ok a b -> length a = length l -> length b = length l ->
+  Forall (fun v => 1 <= v) l ->
+  NoDup (comp_points bd a b l) /\ Z.of_nat (length (comp_points bd a b l)) = comp_total_points bd l.
+Proof.
+  intros bd a b l Hbox La Lb Fl. split.
+  - apply comp_points_NoDup; [exact Hbox|]. clear - Fl. induction Fl as [|v l Hv Fl IH]; constructor; [lia|exact IH].
+  - apply comp_points_length; assumption.
+Qed.
+
+(* the number of DISTINCT points of the whole combination (what get_total_num_points reports: the size of the function cache)
+   is sum_l c_l * prod_d N(l_d): adaptive scheme, every reachable state with lmin >= 1 ... *)
+Theorem C02_total_points_adaptive : forall bd a b s,
+  Inv s -> 1 <= s_lmin s -> box_ok a b -> length a = s_dim s -> length b = s_dim s ->
+  Z.of_nat (length (union_points bd a b (combi_scheme_adaptive s))) = combi_total_points bd (combi_scheme_adaptive s).
+Proof. exact adaptive_total_points. Qed.
+
+(* ... and the closed-form scheme, every dimension, every 1 <= lmin <= lmax *)
+Theorem C02_total_points_closed_form : forall bd a b n lmin lmax,
+  1 <= lmin <= lmax -> box_ok a b -> length a = S n -> length b = S n ->
+  Z.of_nat (length (union_points bd a b (combi_scheme_standard (S n) lmin lmax)))
+  = combi_total_points bd (combi_scheme_standard (S n) lmin lmax).
+Proof. exact std_total_points. Qed.
+
+(* the distinct points are exactly the points of the sparse grid *)
+Theorem C02_union_points_closed_form : forall bd a b n lmin lmax x, 0 <= lmin <= lmax -> length a = S n -> length b = S n ->
+  (In x (union_points bd a b (combi_scheme_standard (S n) lmin lmax)) <->
+   exists k, length k = S n /\ Forall (fun v => lmin <= v) k /\ sumZ k <= lmax - lmin + Z.of_nat (S n) * lmin /\
+             In x (comp_points bd a b k)).
+Proof. exact std_union_points_spec. Qed.
+
+(* LINEARITY in the function: combined interpolant and combined quadrature of a finite linear combination (any scheme, any
+   functions, any point) *)
+Theorem C02_combi_interp_linear : forall bd a b cs (ts : list (Qc * (list Qc -> Qc))) x,
+  combi_interp bd a b cs (lincomb ts) x = sumQ (map (fun t => (fst t * combi_interp bd a b cs (snd t) x)%Qc) ts).
+Proof. exact combi_interp_lincomb. Qed.
+
+Theorem C02_combi_integral_linear : forall bd a b cs (ts : list (Qc * (list Qc -> Qc))),
+  combi_integral bd a b cs (lincomb ts) = sumQ (map (fun t => (fst t * combi_integral bd a b cs (snd t))%Qc) ts).
+Proof. exact combi_integral_lincomb. Qed.
+
+(* EXACTNESS ON THE SPARSE-GRID SPACE: every function sum_k alpha_k * phi_k of the span of the hierarchical tensor hats whose
+   effective level lies in the index set is reproduced at EVERY point of the box and integrated exactly; adaptive scheme ... *)
+Theorem C02_span_interp_exact : forall bd a b s (hs : list hat_term) x,
+  Inv s -> 0 <= s_lmin s -> box_ok a b -> length a = s_dim s -> in_box a b x ->
+  (forall al tau i, In (al, (tau, i)) hs ->
+     length tau = s_dim s /\ Forall2 (hier_idx bd (s_lmin s)) tau i /\ In (eff_level (s_lmin s) tau) (index_set s)) ->
+  combi_interp bd a b (combi_scheme_adaptive s) (span_eval a b hs) x = span_eval a b hs x.
+Proof. exact span_interp_exact. Qed.
+
+Theorem C02_span_integral_exact : forall bd a b s (hs : list hat_term),
+  Inv s -> 0 <= s_lmin s -> box_ok a b -> length a = s_dim s ->
+  (forall al tau i, In (al, (tau, i)) hs ->
+     length tau = s_dim s /\ Forall2 (hier_idx bd (s_lmin s)) tau i /\ In (eff_level (s_lmin s) tau) (index_set s)) ->
+  combi_integral bd a b (combi_scheme_adaptive s) (span_eval a b hs)
+  = sumQ (map (fun h => (fst h * hat_integral a b (fst (snd h)) (snd (snd h)))%Qc) hs).
+Proof. exact span_integral_exact. Qed.
+
+(* ... closed-form scheme of StandardCombi, every dimension, every 0 <= lmin <= lmax *)
+Theorem C02_span_interp_exact_closed_form : forall bd a b n lmin lmax (hs : list hat_term) x,
+  0 <= lmin <= lmax -> box_ok a b -> length a = S n -> in_box a b x ->
+  (forall al tau i, In (al, (tau, i)) hs ->
+     length tau = S n /\ Forall2 (hier_idx bd lmin) tau i /\
+     sumZ (eff_level lmin tau) <= lmax - lmin + Z.of_nat (S n) * lmin) ->
+  combi_interp bd a b (combi_scheme_standard (S n) lmin lmax) (span_eval a b hs) x = span_eval a b hs x.
+Proof. exact std_span_interp_exact. Qed.
+
+Theorem C02_span_integral_exact_closed_form : forall bd a b n lmin lmax (hs : list hat_term),
+  0 <= lmin <= lmax -> box_ok a b -> length a = S n ->
+  (forall al tau i, In (al, (tau, i)) hs ->
+     length tau = S n /\ Forall2 (hier_idx bd lmin) tau i /\
+     sumZ (eff_level lmin tau) <= lmax - lmin + Z.of_nat (S n) * lmin) ->
+  combi_integral bd a b (combi_scheme_standard (S n) lmin lmax) (span_eval a b hs)
+  = sumQ (map (fun h => (fst h * hat_integral a b (fst (snd h)) (snd (snd h)))%Qc) hs).
+Proof. exact std_span_integral_exact. Qed.
+
+(* for an ARBITRARY member of the span of all hierarchical hats the combination is the projection onto the sparse-grid space:
+   the hats outside the index set are annihilated, the others kept *)
+Theorem C02_span_projection_closed_form : forall bd a b n lmin lmax (hs : list hat_term) x,
+  0 <= lmin <= lmax -> box_ok a b -> length a = S n -> in_box a b x ->
+  (forall al tau i, In (al, (tau, i)) hs -> length tau = S n /\ Forall2 (hier_idx bd lmin) tau i) ->
+  combi_interp bd a b (combi_scheme_standard (S n) lmin lmax) (span_eval a b hs) x
+  = span_eval a b (filter (fun h => std_in_space n lmin lmax (fst (snd h))) hs) x.
+Proof. exact std_span_interp_projection. Qed.
+
+(* StandardCombi.get_points_and_weights: the concatenated (point, weight * coefficient) list carries the combined quadrature of
+   every function, and points and weights are aligned (same number per component grid) *)
+Theorem C02_points_weights_carry_integral : forall bd a b cs (f : list Qc -> Qc),
+  sumQ (map (fun pw => (f (fst pw) * snd pw)%Qc) (combi_points_weights bd a b cs)) = combi_integral bd a b cs f.
+Proof. exact combi_points_weights_integral. Qed.
+
+Theorem C02_points_weights_aligned : forall bd a b l cs,
+  length (comp_points bd a b l) = length (comp_weights bd a b l) /\
+  length (combi_points_weights bd a b cs) = length (flat_map (fun kv => comp_points bd a b (fst kv)) cs).
+Proof. intros. split; [apply comp_points_weights_length|apply combi_points_weights_length]. Qed.
+
+(* ---- the boundary test AS THE CODE DOES IT (Model/StdCombiTol.v, Proofs/StdTol.v): Grid.points_not_zero classifies mesh nodes with a
+   TOLERANCE (np.isclose: 1e-8 + 1e-5*|bound| in the current tree; 1e-8*|b_d - a_d| in the proposed repair), the model above with
+   exact equality.  Whenever the closeness test singles out exactly the end points on the nodes of every component grid, the
+   tolerant combined interpolant IS the exact one (so every theorem above transfers) ... *)
+From SG Require Import Model.StdCombiTol Proofs.StdTol.
+Local Open Scope Z_scope.
+Theorem C02_interp_tolerant_equals_exact : forall cl bd a b cs (f : list Qc -> Qc) x,
+  (forall l c, In (l, c) cs -> length x = length l /\ length a = length l /\ length b = length l /\ cl_exact_all cl a b l) ->
+  combi_interp_tol cl bd a b cs f x = combi_interp bd a b cs f x.
+Proof. exact combi_interp_tol_exact. Qed.
+
+(* ... which holds for numpy's isclose as long as the mesh width of level lmax exceeds 1e-8 + 1e-5*|bound| in every dimension: nodal
+   exactness of the CURRENT code's interpolant, closed-form scheme, every dimension ... *)
+Theorem C02_nodal_exact_numpy_isclose_safe : forall bd a b n lmin lmax (f : list Qc -> Qc) x l0 c0,
+  0 <= lmin <= lmax -> box_ok a b -> length a = S n -> length b = S n -> length x = S n ->
+  np_safe_all a b lmax ->
+  In (l0, c0) (combi_scheme_standard (S n) lmin lmax) -> in_comp bd a b x l0 = true ->
+  combi_interp_tol cl_numpy bd a b (combi_scheme_standard (S n) lmin lmax) f x = f x.
+Proof. exact np_tol_nodal_exact. Qed.
+
+(* ... and for the domain-relative tolerance of the proposed repair on EVERY box a < b and every lmax <= 26 *)
+Theorem C02_nodal_exact_domain_tolerance : forall bd a b n lmin lmax (f : list Qc -> Qc) x l0 c0,
+  0 <= lmin <= lmax -> lmax <= 26 -> box_ok a b -> length a = S n -> length b = S n -> length x = S n ->
+  In (l0, c0) (combi_scheme_standard (S n) lmin lmax) -> in_comp bd a b x l0 = true ->
+  combi_interp_tol cl_domain bd a b (combi_scheme_standard (S n) lmin lmax) f x = f x.
+Proof. exact domain_tol_nodal_exact. Qed.
+
+(* REFUTED without the mesh-width condition (finding C02-isclose-far-box): the faithful model of the current code does not reproduce
+   f = 1 at the sparse-grid point 1000 + 1/128 of the box [1000, 1001], level 7, boundary points off.  The witness is replayed on the
+   implementation by the corpus of harness/vp/props/c02.py. *)
+Theorem C02_nodal_exact_numpy_isclose_refuted :
+  exists a b lmin lmax (f : list Qc -> Qc) x l0 c0,
+    0 <= lmin <= lmax /\ box_ok a b /\ length a = 1%nat /\ length b = 1%nat /\ length x = 1%nat /\
+    In (l0, c0) (combi_scheme_standard 1 lmin lmax) /\ in_comp false a b x l0 = true /\
+    combi_interp_tol cl_numpy false a b (combi_scheme_standard 1 lmin lmax) f x <> f x.
+Proof. exact np_tol_nodal_refuted. Qed.
+
+(* ---- OTHER NESTED GRID FAMILIES (Proofs/NestedFamily.v): the three point-set clauses and nodal exactness for ANY family G d l of
+   strictly increasing 1D grids that is nested in the level (per dimension), with piecewise-multilinear interpolation of the nodal
+   values - what StandardCombi does with every Grid whose coordinate arrays are its nodes (trapezoidal, Simpson, Clenshaw-Curtis,
+   Leja ... with boundary points); every reachable state of the adaptive scheme *)
+From SG Require Import Proofs.NestedFamily.
+Theorem C02_nodal_exact_any_nested_family : forall (G : nat -> Z -> list Qc) lmin,
+  (forall d l, lmin <= l -> Sorted.StronglySorted Qclt (G d l)) ->
+  (forall d l l', lmin <= l -> l <= l' -> incl (G d l) (G d l')) ->
+  forall s (f : list Qc -> Qc) x l0 c0,
+  Inv s -> s_lmin s = lmin -> length x = s_dim s ->
+  In (l0, c0) (combi_scheme_adaptive s) -> fam_in_comp G x l0 = true ->
+  fam_combi_interp G (combi_scheme_adaptive s) f x = f x.
+Proof. exact fam_nodal_exact. Qed.
+
+Theorem C02_point_coeff_sum_one_any_nested_family : forall (G : nat -> Z -> list Qc) lmin,
+  (forall d l l', lmin <= l -> l <= l' -> incl (G d l) (G d l')) ->
+  forall s x l0 c0, Inv s -> s_lmin s = lmin -> In (l0, c0) (combi_scheme_adaptive s) -> fam_in_comp G x l0 = true ->
+  fam_coeff_sum G (combi_scheme_adaptive s) x = 1.
+Proof. exact fam_point_coeff_sum_one. Qed.
+
+Theorem C02_union_equals_sparse_grid_any_nested_family : forall (G : nat -> Z -> list Qc) lmin,
+  (forall d l l', lmin <= l -> l <= l' -> incl (G d l) (G d l')) ->
+  forall s x, Inv s -> s_lmin s = lmin ->
+  ((exists l c, In (l, c) (combi_scheme_adaptive s) /\ fam_in_comp G x l = true) <->
+   (exists k, In k (index_set s) /\ fam_in_comp G x k = true)).
+Proof. exact fam_union_equals_sparse_grid. Qed.
+
+(* non-vacuity: a NON-uniform nested family (the same in every dimension): level <= 1: {0, 1}; level 2: {0, 1/3, 1};
+   level >= 3: {0, 1/5, 1/3, 3/4, 1}.  It satisfies both hypotheses; d = 2, lmin = 1, lmax = 3 (adaptive scheme right after its
+   initialisation); the point (1/5, 1) lies in the component grid (3,1) (level 3 is needed in dimension 0) but not in (2,2); f(x,y) = x*x*y + 1
+   is reproduced there: 26/25 *)
+Definition C02_example_family (d : nat) (l : Z) : list Qc :=
+  if l <=? 1 then [Q2Qc 0; Q2Qc 1] else if l <=? 2 then [Q2Qc 0; Q2Qc (1 # 3); Q2Qc 1]
+  else [Q2Qc 0; Q2Qc (1 # 5); Q2Qc (1 # 3); Q2Qc (3 # 4); Q2Qc 1].
+Example C02_nested_family_nonvacuous :
+  (forall d l, 1 <= l -> Sorted.StronglySorted Qclt (C02_example_family d l)) /\
+  (forall d l l', 1 <= l -> l <= l' -> incl (C02_example_family d l) (C02_example_family d l')) /\
+  (exists s, init_scheme 2 3 1 = Some s /\ Inv s /\ s_lmin s = 1 /\ In ([3; 1], 1) (combi_scheme_adaptive s) /\
+     fam_in_comp C02_example_family [Q2Qc (1 # 5); Q2Qc 1] [3; 1] = true /\
+     fam_in_comp C02_example_family [Q2Qc (1 # 5); Q2Qc 1] [2; 2] = false /\
+     fam_combi_interp C02_example_family (combi_scheme_adaptive s)
+       (fun p => match p with [x; y] => (x * x * y + 1)%Qc | _ => Q2Qc 0 end) [Q2Qc (1 # 5); Q2Qc 1] = Q2Qc (26 # 25)).
+Proof.
+  split; [|split].
+  - intros d l Hl. unfold C02_example_family. destruct (l <=? 1); [|destruct (l <=? 2)];
+      repeat (constructor; [|repeat constructor; vm_compute; reflexivity]); constructor.
+  - intros d l l' Hl Hll. unfold C02_example_family.
+    destruct (Z.leb_spec l 1); destruct (Z.leb_spec l' 1); try lia;
+      destruct (Z.leb_spec l 2); destruct (Z.leb_spec l' 2); try lia;
+      intros z Hz; cbn [In] in *; tauto.
+  - destruct (init_scheme 2 3 1) as [s|] eqn:E; [|vm_compute in E; discriminate].
+    exists s. split; [reflexivity|]. split; [exact (init_inv 1 3 1 s E)|].
+    assert (s = match init_scheme 2 3 1 with Some s0 => s0 | None => s end) as Es by (rewrite E; reflexivity).
+    split; [rewrite Es; vm_compute; reflexivity|].
+    split; [rewrite Es; vm_compute; repeat (first [left; reflexivity | right])|].
+    split; [vm_compute; reflexivity|]. split; [vm_compute; reflexivity|].
+    rewrite Es. apply Qc_is_canon. vm_compute. reflexivity.
+Qed.
+
+(* ---- WHAT THE REPOSITORY'S OWN TEST SEES (Proofs/StdAffine.v): a product of affine functions prod_d (al_d + be_d x_d) is reproduced
+   at every point of the box and integrated exactly by EVERY SINGLE component grid with boundary points, whatever its level vector;
+   so its combination over ANY list of level vectors with ANY integer coefficients is (sum of the coefficients) * (exact value):
+   test_StandardCombi's integrand cannot see a wrong coefficient, a wrong level shift or misaligned points - only the coefficient sum *)
+From SG Require Import Proofs.StdHierTensor Proofs.StdAffine.
+Theorem C02_affine_products_see_only_coefficient_sum : forall a b cs affs0 x,
+  box_ok a b -> length affs0 = length a -> in_box a b x ->
+  (forall l c, In (l, c) cs -> length l = length a /\ Forall (fun v => 0 <= v) l) ->
+  combi_interp true a b cs (tprod (affs affs0)) x = (qc_of_Z (sumZ (map snd cs)) * tprod (affs affs0) x)%Qc /\
+  combi_integral true a b cs (tprod (affs affs0)) = (qc_of_Z (sumZ (map snd cs)) * affine_volume a b affs0)%Qc.
+Proof.
+  intros a b cs affs0 x Hbox La B H. split.
+  - exact (combi_interp_affine_product a b cs affs0 x Hbox La B H).
+  - exact (combi_integral_affine_product a b cs affs0 Hbox La H).
+Qed.
+
+Theorem C02_affine_products_exact : forall a b s affs0 x,
+  Inv s -> 0 <= s_lmin s -> box_ok a b -> length a = s_dim s -> length affs0 = s_dim s -> in_box a b x ->
+  combi_interp true a b (combi_scheme_adaptive s) (tprod (affs affs0)) x = tprod (affs affs0) x /\
+  combi_integral true a b (combi_scheme_adaptive s) (tprod (affs affs0)) = affine_volume a b affs0.
+Proof. exact adaptive_affine_product_exact. Qed.
+
+(* ONE Print Assumptions for the round-2 theorems (each Print Assumptions walks the whole dependency closure, ~0.7 s; the quick
+   tier re-compiles this file on every run): the tuple below mentions every theorem of this section, so its assumption set is
+   the union of theirs. *)
+Definition C02_round2_all := (C02_union_equals_sparse_grid_adaptive,
+  C02_union_equals_sparse_grid_closed_form,
+  C02_union_is_diagonal_union_closed_form,
+  C02_component_points_count,
+  C02_total_points_adaptive,
+  C02_total_points_closed_form,
+  C02_union_points_closed_form,
+  C02_combi_interp_linear,
+  C02_combi_integral_linear,
+  C02_span_interp_exact,
+  C02_span_integral_exact,
+  C02_span_interp_exact_closed_form,
+  C02_span_integral_exact_closed_form,
+  C02_span_projection_closed_form,
+  C02_points_weights_carry_integral,
+  C02_points_weights_aligned,
+  C02_interp_tolerant_equals_exact,
+  C02_nodal_exact_numpy_isclose_safe,
+  C02_nodal_exact_domain_tolerance,
+  C02_nodal_exact_numpy_isclose_refuted,
+  C02_nodal_exact_any_nested_family,
+  C02_point_coeff_sum_one_any_nested_family,
+  C02_union_equals_sparse_grid_any_nested_family,
+  C02_affine_products_see_only_coefficient_sum,
+  C02_affine_products_exact).
+Print Assumptions C02_round2_all.
+
+(* non-vacuity: d=2, lmin=1, lmax=3 on [0,1]x[0,2] with boundary points: 49 distinct points = 1*(27+25+27) - 1*(15+15);
+   the point (1/4, 1) lies in the union through the diagonal grid (2,2); the function 2*phi_{(2,2),(1,3)} - 3*phi_{(1,3),(1,5)}
+   satisfies the hypotheses of the span theorems (no boundary points), its value at (1/3, 9/7) - not a grid point of any level -
+   is 2*8/21 - 3*4/7 = -20/21 and its combined interpolant equals it *)
+Example C02_round2_nonvacuous :
+  combi_total_points true (combi_scheme_standard 2 1 3) = 49 /\
+  Z.of_nat (length (union_points true [Q2Qc 0; Q2Qc 0] [Q2Qc 1; Q2Qc 2] (combi_scheme_standard 2 1 3))) = 49 /\
+  in_union true [Q2Qc 0; Q2Qc 0] [Q2Qc 1; Q2Qc 2] (combi_scheme_standard 2 1 3) [Q2Qc (1 # 4); Q2Qc 1] /\
+  (forall al tau i, In (al, (tau, i)) [(Q2Qc 2, ([2; 2], [1; 3])); (Q2Qc (-3), ([1; 3], [1; 5]))] ->
+     length tau = 2%nat /\ Forall2 (hier_idx false 1) tau i /\ sumZ (eff_level 1 tau) <= 3 - 1 + Z.of_nat 2 * 1) /\
+  span_eval [Q2Qc 0; Q2Qc 0] [Q2Qc 1; Q2Qc 2] [(Q2Qc 2, ([2; 2], [1; 3])); (Q2Qc (-3), ([1; 3], [1; 5]))] [Q2Qc (1 # 3); Q2Qc (9 # 7)]
+    = Q2Qc (-20 # 21) /\
+  combi_interp false [Q2Qc 0; Q2Qc 0] [Q2Qc 1; Q2Qc 2] (combi_scheme_standard 2 1 3)
+    (span_eval [Q2Qc 0; Q2Qc 0] [Q2Qc 1; Q2Qc 2] [(Q2Qc 2, ([2; 2], [1; 3])); (Q2Qc (-3), ([1; 3], [1; 5]))]) [Q2Qc (1 # 3); Q2Qc (9 # 7)]
+    = Q2Qc (-20 # 21).
+Proof.
+  assert (box_ok [Q2Qc 0; Q2Qc 0] [Q2Qc 1; Q2Qc 2]) as Hbox by (repeat constructor).
+  split; [vm_compute; reflexivity|].
+  split; [rewrite (C02_total_points_closed_form true _ _ 1 1 3 ltac:(lia) Hbox eq_refl eq_refl); vm_compute; reflexivity|].
+  split; [apply (C02_union_is_diagonal_union_closed_form true _ _ 1 1 3 _ ltac:(lia)); exists [2; 2];
+          split; [reflexivity|]; split; [repeat constructor; lia|]; split; [reflexivity|vm_compute; reflexivity]|].
+  split.
+  { intros al tau i [E|[E|[]]]; injection E as <- <- <-; (split; [reflexivity|]); (split; [|vm_compute; discriminate]);
+      (constructor; [|constructor; [|constructor]]);
+      (split; [lia|split; [simpl; lia|split; [intros _; simpl; lia|left; reflexivity]]]). }
+  split; apply Qc_is_canon; vm_compute; reflexivity.
+Qed.
